@@ -143,6 +143,14 @@ var schemas = map[string][]field{
 	"FlushRequestB": {{"Election", "Election", kind{k: "oneof", s: "FlushElec"}}, {"NetworkInstance", "NetworkInstance", kind{k: "oneof", s: "FlushNI"}}},
 	"ConvTok":           {{"Tag", "Tag", kNat}},
 	"ReconOpX":          {{"Id", "Id", kNat}, {"NetworkInstance", "NetworkInstance", kStr}, {"Op", "Op", kEnum}, {"Entry", "Entry", kind{k: "oneof", s: "ReconEntryX"}}},
+	"MplsLabelU":        {{"MplsLabelStackUint64", "MplsLabelStackUint64", kNat}},
+	"EhMplsB":           {{"MplsLabelStack", "MplsLabelStack", kind{k: "list", s: "MplsLabelU", elemNN: true}}},
+	"EhUdpB": {{"Dscp", "Dscp", kPtr("UintValue")}, {"DstIp", "DstIp", kPtr("StringValue")}, {"DstUdpPort", "DstUdpPort", kPtr("UintValue")}, {"IpTtl", "IpTtl", kPtr("UintValue")},
+		{"SrcIp", "SrcIp", kPtr("StringValue")}, {"SrcUdpPort", "SrcUdpPort", kPtr("UintValue")}},
+	"EhMplsHdrB":        {{"Type", "Type_", kEnum}, {"Mpls", "Mpls", kPtrNN("EhMplsB")}},
+	"EhUdpHdrB":         {{"Type", "Type_", kEnum}, {"UdpV6", "UdpV6", kPtrNN("EhUdpB")}},
+	"mplsEncapHeader":   {{"pb", "pb", kPtrNN("EhMplsHdrB")}},
+	"udpv6EncapHeader":  {{"pb", "pb", kPtrNN("EhUdpHdrB")}},
 	"opResult":          {{"r", "r", kPtrNN("COpResult")}},
 	"gRIBIGet":          {{"pb", "pb", kPtrNN("GetRequestG")}},
 	"gRIBIFlush":        {{"pb", "pb", kPtrNN("FlushRequestB")}},
@@ -227,6 +235,7 @@ var leanStruct = map[string]string{
 	"BytesValue": "BytesValue", "TopEntryB": "TopEntryB", "Ipv4KeyB": "Ipv4KeyB", "Ipv6KeyB": "Ipv6KeyB", "PoppedU": "PoppedU", "LabelEntryB": "LabelEntryB", "LabelKeyB": "LabelKeyB", "NhgNhB": "NhgNhB", "NhgNhKeyB": "NhgNhKeyB", "NhgPayloadB": "NhgPayloadB", "NhgKeyB": "NhgKeyB", "AFTOperationB": "AFTOperationB", "AFTEntryB": "AFTEntryB", "FlushRequestB": "FlushRequestB",
 	"BoolValue": "BoolValue", "IfRefB": "IfRefB", "IpInIpB": "IpInIpB", "PushedU": "PushedU", "NhPayloadB": "NhPayloadB", "NhKeyB": "NhKeyB", "nextHopEntry": "NhBuilder",
 	"ConvTok": "ConvTok", "ReconOpX": "ReconOpX", "opResult": "OpResultBuilder",
+	"MplsLabelU": "MplsLabelU", "EhMplsB": "EhMplsB", "EhUdpB": "EhUdpB", "EhMplsHdrB": "EhMplsHdrB", "EhUdpHdrB": "EhUdpHdrB", "mplsEncapHeader": "MplsHdrBuilder", "udpv6EncapHeader": "UdpHdrBuilder",
 	"ModifyRequestE": "ModifyRequestE", "ReqTok": "ReqTok", "gRIBIGet": "GetBuilder", "gRIBIFlush": "FlushBuilder",
 	"ipv4Entry": "Ipv4Builder", "ipv6Entry": "Ipv6Builder", "labelEntry": "LabelBuilder", "nextHopGroupEntry": "NhgBuilder",
 }
